@@ -3,8 +3,9 @@
 import json, os, shutil, sys, re
 pid, x, caught = sys.argv[1:4]
 needs = ' '.join(sys.argv[4:])
-src = '/tmp/seed/%s' % pid
-dst = '/verif/seeded/%s-%s' % (pid, x)
+import os as _os
+src = '%s/%s' % (_os.environ.get('SEEDROOT', '/tmp/seed'), pid)
+dst = '/verif/seeded/%s-%s' % (pid, _os.environ.get('SEEDNAME', x))
 os.makedirs(dst, exist_ok=True)
 shutil.copy(os.path.join(src, 'patch_%s.diff' % x), os.path.join(dst, 'patch.diff'))
 shutil.copy(os.path.join(src, 'demo_%s.py' % x), os.path.join(dst, 'demo.py'))
